@@ -43,8 +43,15 @@ class Describer:
         self.aliases, self.alias_p = aliases, alias_p
 
     def sysdict(self, name):
+        """The declaration of a units system. A component equal to the documented default (µm, s, molecule) may be left out:
+        omitted components take the documented defaults, wherever the dictionary is nested."""
         s = self.systems[name]
-        return {"space": s[0], "time": s[1], "quantity": s[2]}
+        d = {"space": s[0], "time": s[1], "quantity": s[2]}
+        if self.alias_p > 0 or self.explicit_p > 0:
+            for k, dv in (("space", D[0]), ("time", D[1]), ("quantity", D[2])):
+                if d[k] == dv and self.rng.random() < 0.5:
+                    del d[k]
+        return d
 
     def units_key(self, d, level, decl):
         v = decl[level]
